@@ -86,6 +86,8 @@ class DataGen:
         d = {k: self.value() for k in ks}
         if self.r.random() < 0.7:
             d["items"] = [self.value(1) for _ in range(self.pick([0, 1, 2, 3, 5]))]
+        # a string that is a keyword where the grammar writes it bare (loop arguments read it through a variable)
+        d["kw"] = self.pick(["continue", "continue", "continue", "reversed", "empty", "nil", "limit", "1"])
         return d
 
 
